@@ -77,21 +77,20 @@ def job(j):
                     if unknown:
                         record("named-constraint-not-in-problem", repr(unknown))
                     else:
-                        # the named set + basic rules must admit no schedule
-                        keep_ids = {cons_by_name[n]["id"] for n in named if n in cons_by_name}
-                        removable = [d["id"] for d in program["decls"] if d["k"] == "new" and d.get("id") and d["cls"] in ref.CONSTRAINT_CLS
-                                     and d["cls"] not in ("TaskLoadBuffer", "TaskUnloadBuffer")]
-                        # operands referenced by a kept connective stay
-                        sub, removed = analysis.without(program, set(removable) - keep_ids)
-                        if any(k in removed for k in keep_ids):
-                            sub = None
-                        if sub is not None:
-                            l2, st2, *_r = hs.admitted_set(sub)
-                            res["checks"] += st2.checks
-                            if l2:
-                                n_assert = max((len(b.obj(cid).get_z3_assertions()) for cid in keep_ids), default=0)
-                                record("named-set-is-satisfiable", f"named {named}; the problem with only these constraints admits {len(l2)} schedules",
-                                       n_named=min(len(named), 3), optional_constraint=any(cons_by_name[n]["args"].get("optional") for n in named if n in cons_by_name))
+                        # the named set + basic rules must admit no schedule: same program, but every constraint
+                        # that is NOT named contributes no assertion (its own list is emptied before the solver is built)
+                        b3 = dsl.build(program)
+                        for cname, cobj in b3.pb.constraints.items():
+                            if cname not in named:
+                                cobj._z3_assertions = []
+                        s3 = analysis.make_solver(b3, {})
+                        st3 = ex.Stats()
+                        l2 = list(ex.explore(s3._solver, ex.primaries(b3), st3))
+                        res["checks"] += st3.checks
+                        if l2:
+                            record("named-set-is-satisfiable", f"named {named}; the problem with only these constraints admits {len(l2)} schedules",
+                                   n_named=min(len(named), 3), optional_constraint=any(cons_by_name[n]["args"].get("optional") for n in cons_by_name
+                                                                                         if n in b3.pb.constraints and cons_by_name[n]["args"].get("optional")))
             if (not sol0) and ("no solution exists" in text0) != unsat_said:
                 record("debug-changes-verdict", f"debug unsat={unsat_said} plain unsat={'no solution exists' in text0}")
         else:
